@@ -77,6 +77,22 @@ pub fn keygen_random(s: Suite) -> Result<(Bytes, Bytes), String> {
         Ok((kp.private_key().to_bytes().to_vec(), kp.public_key().to_bytes().to_vec()))
     })
 }
+/// the library's own key store: KeyGen, then KeyPair::write_keypair_to_file(path); returns (sk, pk)
+pub fn keypair_to_file(s: Suite, ikm: &[u8], path: &str) -> Result<(Bytes, Bytes), String> {
+    with_suite!(s, CS, {
+        let kp = KeyPair::<BBSplus<CS>>::generate(ikm, None, None).map_err(e2s)?;
+        kp.write_keypair_to_file(Some(path.to_string()));
+        Ok((kp.private_key().to_bytes().to_vec(), kp.public_key().to_bytes().to_vec()))
+    })
+}
+/// ... and the reader an application would write: the stored JSON document parsed as a key pair
+pub fn keypair_from_file(s: Suite, path: &str) -> Result<(Bytes, Bytes), String> {
+    let text = std::fs::read_to_string(path).map_err(|e| e.to_string())?;
+    with_suite!(s, CS, {
+        let kp: KeyPair<BBSplus<CS>> = dj(&text).map_err(|e| format!("the stored document does not parse: {e}"))?;
+        Ok((kp.private_key().to_bytes().to_vec(), kp.public_key().to_bytes().to_vec()))
+    })
+}
 pub fn sk_to_pk(sk: &[u8]) -> Result<Bytes, String> {
     let sk = BBSplusSecretKey::from_bytes(sk).map_err(e2s)?;
     Ok(sk.public_key().to_bytes().to_vec())
@@ -173,7 +189,7 @@ pub fn proof_verify(s: Suite, pk: &[u8], proof: &[u8], header: &Opt, ph: &Opt, d
 pub fn proof_verify_json(s: Suite, pk: &[u8], proof_json: &str, header: &Opt, ph: &Opt, dmsgs: &OptList, didx: &OptIdx) -> Res {
     let pk = match BBSplusPublicKey::from_bytes(pk) { Ok(p) => p, Err(e) => return Res::Reject(e2s(e)) };
     with_suite!(s, CS, {
-        let p: PoKSignature<BBSplus<CS>> = match serde_json::from_str(proof_json) { Ok(x) => x, Err(e) => return Res::Reject(format!("decode:{}", e2s(e))) };
+        let p: PoKSignature<BBSplus<CS>> = match dj(proof_json) { Ok(x) => x, Err(e) => return Res::Reject(format!("decode:{}", e2s(e))) };
         match p.proof_verify(&pk, dmsgs.as_deref(), didx.as_deref(), header.as_deref(), ph.as_deref()) { Ok(()) => Res::Accept, Err(e) => Res::Reject(e2s(e)) }
     })
 }
@@ -312,16 +328,27 @@ pub fn to_json(s: Suite, art: Art, b: &[u8]) -> Result<String, String> {
 }
 
 /// JSON text -> object -> octets
+/// JSON decoding through one of serde_json's three front ends, picked by the text itself (so that
+/// every artefact sees all three over a batch): from_str (borrowing), from_reader (streaming, no
+/// borrowed strings) and from_value (a parsed tree).  A correct Deserialize impl cannot tell them apart.
+pub fn dj<T: serde::de::DeserializeOwned>(j: &str) -> Result<T, serde_json::Error> {
+    match j.len() % 3 {
+        0 => serde_json::from_str::<T>(j),
+        1 => serde_json::from_reader::<_, T>(j.as_bytes()),
+        _ => { let v: serde_json::Value = serde_json::from_str(j)?; serde_json::from_value::<T>(v) }
+    }
+}
+
 pub fn from_json(s: Suite, art: Art, j: &str) -> Result<Bytes, String> {
     use zkryptium::bbsplus::proof::BBSplusZKPoK;
     match art {
-        Art::Pk => Ok(serde_json::from_str::<BBSplusPublicKey>(j).map_err(e2s)?.to_bytes().to_vec()),
-        Art::Sk => Ok(serde_json::from_str::<BBSplusSecretKey>(j).map_err(e2s)?.to_bytes().to_vec()),
-        Art::Sig => with_suite!(s, CS, Ok(serde_json::from_str::<Signature<BBSplus<CS>>>(j).map_err(e2s)?.to_bytes().to_vec())),
-        Art::BlindSig => with_suite!(s, CS, Ok(serde_json::from_str::<BlindSignature<BBSplus<CS>>>(j).map_err(e2s)?.to_bytes().to_vec())),
-        Art::Proof => with_suite!(s, CS, Ok(serde_json::from_str::<PoKSignature<BBSplus<CS>>>(j).map_err(e2s)?.to_bytes())),
-        Art::Zkpok => Ok(serde_json::from_str::<BBSplusZKPoK>(j).map_err(e2s)?.to_bytes()),
-        Art::Commitment => with_suite!(s, CS, Ok(serde_json::from_str::<Commitment<BBSplus<CS>>>(j).map_err(e2s)?.to_bytes())),
+        Art::Pk => Ok(dj::<BBSplusPublicKey>(j).map_err(e2s)?.to_bytes().to_vec()),
+        Art::Sk => Ok(dj::<BBSplusSecretKey>(j).map_err(e2s)?.to_bytes().to_vec()),
+        Art::Sig => with_suite!(s, CS, Ok(dj::<Signature<BBSplus<CS>>>(j).map_err(e2s)?.to_bytes().to_vec())),
+        Art::BlindSig => with_suite!(s, CS, Ok(dj::<BlindSignature<BBSplus<CS>>>(j).map_err(e2s)?.to_bytes().to_vec())),
+        Art::Proof => with_suite!(s, CS, Ok(dj::<PoKSignature<BBSplus<CS>>>(j).map_err(e2s)?.to_bytes())),
+        Art::Zkpok => Ok(dj::<BBSplusZKPoK>(j).map_err(e2s)?.to_bytes()),
+        Art::Commitment => with_suite!(s, CS, Ok(dj::<Commitment<BBSplus<CS>>>(j).map_err(e2s)?.to_bytes())),
         Art::BlindFactor => Err("no serde for BlindFactor".into()),
     }
 }
